@@ -559,6 +559,23 @@ def rule_buffer_lifetime(ctx, px):
 
 
 
+def rule_splitter_state(ctx):
+    R = "progress"
+    # the pure-Python batch splitter keeps one look-ahead slice between next_batch() calls: every normal path of _cache_next() must
+    # (re)write it -- the new slice, or None when no complete batch is left -- or has_next() stays true on a stale slice, the cursor
+    # does not move and the decode loop never ends
+    fi = ctx.fn("aiokafka.record.memory_records._MemoryRecordsPy._cache_next")
+    c = ctx.cfg(fi)
+    sts = [n for n in c.stores(attr="_next_slice") if unparse(n.ast) == "self._next_slice"]
+    ok = len(sts) >= 2 and c.exit not in c.reachable([c.entry], avoid=set(sts), exc=False)
+    ob(ctx, R, fi, fi.node.lineno, "py-splitter-lookahead-rewritten", ok,
+       "_cache_next can return without rewriting the look-ahead slice (a truncated trailing batch leaves the previous batch in place: has_next() stays True for ever)")
+    fh = ctx.fn("aiokafka.record.memory_records._MemoryRecordsPy.has_next")
+    fn_ = ctx.fn("aiokafka.record.memory_records._MemoryRecordsPy.next_batch")
+    ok2 = "self._next_slice is not None" in unparse(fh.node) and any(isinstance(x, ast.Call) and call_attr(x) == "_cache_next" for x in ast.walk(fn_.node))
+    ob(ctx, R, fh, fh.node.lineno, "py-splitter-protocol", ok2, "has_next()/next_batch() do not follow the look-ahead protocol (has_next <=> slice present; next_batch advances the look-ahead)")
+
+
 def rule_xerial_progress(ctx):
     R = "progress"
     fi = ctx.fn("aiokafka.codec.snappy_decode")
@@ -605,6 +622,7 @@ def run(ctx):
     rule_decode_varint_cython(ctx, px)
     rule_progress(ctx, px, summaries)
     rule_xerial_progress(ctx)
+    rule_splitter_state(ctx)
     rule_crc(ctx, px)
     rule_clean_errors(ctx)
     rule_buffer_lifetime(ctx, px)
